@@ -72,6 +72,17 @@ fn main() {
         "C18" => {
             cells = poly::cells(t);
         }
+        "C17" => {
+            // Quire / AssociatedQuire trait methods, add_product/sub_product methods, tuple and array spellings
+            let mut all = vec![];
+            all.extend(cells::spellings::<Q8E0>(t));
+            all.extend(cells::spellings::<Q16E1>(t));
+            all.extend(cells::spellings::<Q32E2>(t));
+            for c in all.iter_mut() {
+                c.prop = "C17";
+            }
+            cells = all;
+        }
         p => {
             eprintln!("vp_quire: no cells for property {p}");
             std::process::exit(2);
